@@ -86,7 +86,13 @@ Definition fun_occ (p : fcprog) : N := fold_right N.max 0 (map fun_occ_def (fcpd
 
 (* the proved bounds, as evaluated by modelrun (k = 0: node counts; k = 1: weighted sizes) *)
 Definition f2c_factor (k V : N) : N := 6 + (2 + k) * (V + 2).
-Definition f2c_bound_nodes (p : fcprog) : N := size_fcprog p * f2c_factor 0 (fun_occ p).
+(* since fix f929eb7 of /repo: when some call targets main the output starts with the entry point
+   def main<n>(params) { main(params, mu~x. exit x) }  of 5 + #params nodes (one per definition named main); the
+   parameters of a definition are not nodes of the source, so the node bound has them as an additive term
+   (the weighted size counts them: the weighted bound needs no such term) *)
+Definition main_params (d : fdef) : N := if String.eqb (fdname d) "main" then len (fdctx d) else 0.
+Definition entry_params (p : fcprog) : N := if calls_main_prog p then nsum main_params (fcpdefs p) else 0.
+Definition f2c_bound_nodes (p : fcprog) : N := size_fcprog p * f2c_factor 0 (fun_occ p) + entry_params p.
 Definition f2c_bound_weighted (p : fcprog) : N := f_wprog p * f2c_factor 1 (fun_occ p).
 
 (* what the type declarations of the source contribute to the bound of shrinking: the largest number of
